@@ -81,6 +81,11 @@ inline bool tvOne (const FnRecord& f, void (*body) (Ctx<T>&), const std::vector<
     if (exc != excReal) { detail = "exception kind: real='" + excReal + "' tree='" + exc + "'"; return false; }
     if (!exc.empty ()) return true;
     if (vals.size () != c.cvals.size () || ints != c.cints) { detail = "result arity / integer results differ"; return false; }
+    if (ev.strs != c.cstrs)
+    {
+        detail = "printed text differs: real='" + (c.cstrs.empty () ? std::string ("") : c.cstrs[0]) + "' tree='" + (ev.strs.empty () ? std::string ("") : ev.strs[0]) + "'";
+        return false;
+    }
     for (size_t i = 0; i < vals.size (); ++i)
         if (!sameBits (vals[i], c.cvals[i]))
         {
@@ -119,6 +124,7 @@ template <class T> TVFn makeTV (void (*body) (Ctx<T>&))
     };
 }
 
+inline std::vector<std::string>& lastRealStrs () { static std::vector<std::string> v; return v; }
 inline RunFn makeRun (void (*body) (Ctx<double>&))
 {
     return [body] (const std::vector<double>& in, std::vector<double>& vals, std::vector<long>& ints, std::string& exc) {
@@ -128,6 +134,7 @@ inline RunFn makeRun (void (*body) (Ctx<double>&))
         catch (const std::exception& x) { exc = excKind (x); }
         vals = c.cvals;
         ints = c.cints;
+        lastRealStrs () = c.cstrs;
     };
 }
 
@@ -194,6 +201,17 @@ inline int sym_main (int argc, char** argv)
             // a dependency is a Gen module, or (dotted name, e.g. Model.GaussJordan) a hand model called opaquely
             for (auto& d : deps[m]) os << "import ImathVerif." << (d.find ('.') == std::string::npos ? "Gen." : "") << d << "\n";
             os << "set_option linter.unusedVariables false\n";
+            {
+                // a definition with a very long `let` chain (e.g. rotationMatrix: 79 paths, ~900 shared terms) needs a deeper elaborator stack
+                size_t cur = 0, mx = 0;
+                std::istringstream is (text[m]);
+                for (std::string ln; std::getline (is, ln);)
+                {
+                    if (ln.rfind ("def ", 0) == 0) cur = 0;
+                    else if (ln.rfind ("  let ", 0) == 0) mx = std::max (mx, ++cur);
+                }
+                if (mx > 500) os << "set_option maxRecDepth 8192\n";
+            }
             os << "namespace ImathVerif.Gen\nopen ImathVerif\n\n" << text[m] << "end ImathVerif.Gen\n";
         }
         return 0;
@@ -215,6 +233,11 @@ inline int sym_main (int argc, char** argv)
             for (double v : vals) printf ("%.17g ", v);
             printf ("ints=");
             for (long v : ints) printf ("%ld ", v);
+            for (auto& t : lastRealStrs ())
+            {
+                printf ("text=");
+                for (unsigned char ch : t) printf (ch == '\n' ? "\\n" : "%c", ch);
+            }
             printf ("\n");
             return 0;
         }
@@ -263,6 +286,28 @@ inline int sym_main (int argc, char** argv)
                     for (auto& x : vals) printf ("%s,", x.str ().c_str ());
                     printf (" ints=");
                     for (long x : ints) printf ("%ld,", x);
+                    // printed texts of the selected leaf in canonical segment form
+                    {
+                        Emitter em2; em2.r = r;
+                        // find the leaf again: re-run path selection through the evaluator's conditions
+                        size_t lo = 0, hi = r->paths.size (), depth = 0;
+                        while (r->paths[lo].conds.size () != depth)
+                        {
+                            size_t mid = lo;
+                            while (mid < hi && r->paths[mid].conds.size () > depth && r->paths[mid].conds[depth].second) ++mid;
+                            if (ev.cond (r->paths[lo].conds[depth].first)) hi = mid; else lo = mid;
+                            ++depth;
+                        }
+                        for (auto& text : r->paths[lo].leaf.strs)
+                        {
+                            printf (" segs=");
+                            for (auto& t : parseText (text))
+                            {
+                                if (t.tok) printf ("T%ld:%ld:%ld:%ld|", em2.varIndex (t.node), t.w, t.flags, t.prec);
+                                else { printf ("L"); for (unsigned char ch : t.lit) printf ("%02x", ch); printf ("|"); }
+                            }
+                        }
+                    }
                     printf ("\n");
                 }
                 catch (const FracOverflow&) {}
